@@ -803,7 +803,7 @@ def order_sensitive_programs(rng, n):
 def c11(tier):
     chk = Check('C11', tier)
     chk.rule = ('every program (corpus, seeded random programs, programs with many names in every hashed table) is compiled and executed repeatedly: twice in one process, in three '
-                'fresh processes (fresh hash seeds) of the debug build and two of the release build, and through the real `fml compile`/`fml run` command line; the history of observations '
+                'fresh processes (fresh hash seeds) of the debug build and two of the release build, and through the real `fml compile`/`fml run` command line; TLC-generated bytecode with duplicate label texts (MC_DupLabels) is executed in several fresh processes; the history of observations '
                 '(program -> compiled bytes, bytes -> status + output) is validated by TLC against FMLObservations: a result is a function of its key and may not depend on run number, '
                 'process or build profile. distinct_nontrivial = distinct (program, observation source) pairs.')
     wd = scratch('c11')
@@ -850,6 +850,35 @@ def c11(tier):
                 add(i, 'bytes', {'d': hashlib.sha1(open(bc, 'rb').read()).hexdigest(), 'stage': 'ok'}, '%s `fml parse | fml compile`' % profile)
             rc3, so, se = sh([exe, 'run', src], wd)
             add(i, 'outcome', {'ok': rc3 == 0, 'out': hashlib.sha1(so).hexdigest()}, '%s `fml run`' % profile)
+    # bytecode with duplicate label texts (TLC-generated, MC_DupLabels): the same bytes must always behave the same, in every process
+    rd = tlc_or_die('MC_DupLabels', workers=2, timeout=600)
+    chk.add_tlc(rd)
+    dups = rd.lines.get('REPLAY', [])
+    dprogs = [{'name': 'duplabels:%s' % json.dumps(g['v'], sort_keys=True)} for g in dups]
+    import vmtrace
+    exe = build('debug')
+    dtr = []
+    for rdn in range(tier_sizes(tier, 6, 20)):
+        douts = run_harness(exe, 'exec', [{'id': j, 'bytes': g['bytes'], 'want': ['run', 'events', 'final', 'repeat'], 'budget': 1000} for j, g in enumerate(dups)], wd, tag='c11dup%d' % rdn, jobs=1 + rdn % 3)
+        for j, o in enumerate(douts):
+            run = o.get('run') or {}
+            val = {'ok': bool(run.get('ok')), 'out': hashlib.sha1(bytes(run.get('out', []))).hexdigest(), 'load': o.get('load')}
+            obs.append({'key': dprogs[j]['name'] + ' :: outcome', 'val': val, 'cfg': 'debug process %d (in-process VM)' % (rdn + 1)})
+            chk.count((dprogs[j]['name'], 'process %d' % rdn))
+            if rdn == 0:
+                o['bytes'] = dups[j]['bytes']
+                dtr.append(vmtrace.to_trace_record(j, o))
+            bc = os.path.join(wd, 'dup%d.bc' % j)
+            open(bc, 'wb').write(bytes(dups[j]['bytes']))
+            rc, so, se = sh([exe, 'execute', bc], wd)
+            obs.append({'key': dprogs[j]['name'] + ' :: outcome', 'val': {'ok': rc == 0, 'out': hashlib.sha1(so).hexdigest(), 'load': 'ok'}, 'cfg': '`fml execute` process %d' % (rdn + 1)})
+    # ... and that behaviour is the one the abstract machine prescribes (last definition in code order wins)
+    dvs, drs = vmtrace.validate(dtr, wd, tag='c11dup')
+    for r_ in drs:
+        chk.add_tlc(r_)
+    from checks_vm import report_vm
+    chk.traces += report_vm(chk, {j: dprogs[j]['name'] for j in range(len(dprogs))}, dtr, dvs)
+    progs = progs + [{'name': d['name'], 'text': '(bytecode) ' + json.dumps(dups[j]['bytes'])} for j, d in enumerate(dprogs)]
     opath = os.path.join(wd, 'obs.ndjson')
     write_ndjson(opath, obs)
     ro = tlc_or_die('FMLObservations', env={'OBS': opath}, workers=1, timeout=1800, dfs=True)
